@@ -64,4 +64,5 @@ INVARIANT C08_Done
 INVARIANT C09_RevisionsFirst
 INVARIANT C09_OneClaim
 INVARIANT C09_NotAhead
+INVARIANT C09_RecordedFirst
 INVARIANT Vacuity
